@@ -20,6 +20,7 @@ from geneticengine.grammar.utils import is_abstract
 from geneticengine.grammar.utils import is_annotated
 from geneticengine.grammar.utils import is_generic
 from geneticengine.grammar.utils import is_generic_list
+from geneticengine.grammar.utils import is_generic_tuple
 from geneticengine.grammar.utils import is_terminal
 from geneticengine.grammar.utils import strip_annotations
 from geneticengine.grammar.utils import strip_dependencies
@@ -262,7 +263,7 @@ class Grammar:
 
         def explode_generics(tys: list[type]):
             for ty in tys:
-                if is_union(ty):
+                if is_union(ty) or is_generic_tuple(ty):
                     yield from explode_generics(get_generic_parameters(ty))
                 elif is_generic_list(ty) or is_annotated(ty):
                     yield from explode_generics([get_generic_parameter(ty)])
